@@ -85,6 +85,15 @@ CLAIMED["C16"] = (
     "DESIGN.md 3.6",
 )
 
+CLAIMED["C13"] = (
+    "xfrsim",
+    "deterministic simulation: a scripted primary streams seeded version chains (AXFR, IXFR chains, AXFR-style, up-to-date, UDP) cut into messages with single stream faults, through dns.xfr.Inbound and through dns.query/asyncquery.inbound_xfr over the simulated network (fragmentation, EOF, reset, stall, refused connect, UDP modes); independent XFR interpreter + two-sided atomicity law",
+    "exploration",
+    "Message tier: every message is rendered and re-parsed by the real codec and fed to dns.xfr.Inbound on all three zone kinds x relativize; an independent naive RFC 5936/1995 interpreter applied to the faulted stream decides applied(content)/rejected; valid streams must converge to the server's target version; rejected streams must raise and leave content and node identities untouched; never (exception and zone changed); no write transaction left open. Network tier: the same streams via inbound_xfr sync and async over netsim with TCP chunking, capped recv, EOF/reset/stall positions, refused connect and UDPMode NEVER/TRY_FIRST/ONLY; sync == async.",
+    "Trusted: the reference interpreter ref_xfr in checks/c13.py, the reference zone model, netsim. TSIG-signed transfers are exercised under C14. The receiver stops reading at the final SOA, so data after it in later messages is unobservable.",
+    "DESIGN.md 3.4",
+)
+
 PENDING_REASON = "check under construction in this session (DESIGN.md section 8 build order); not claimed until its quick command is green on the unchanged tree"
 ALL = [f"C{i:02d}" for i in range(1, 21)]
 
